@@ -18,3 +18,4 @@ open IrVerif.Sort
 #print axioms C12_fixpoint_graph
 #print axioms C12_fixpoint
 #print axioms C12_deterministic
+#print axioms C12_stateless
